@@ -5,6 +5,7 @@ import sys
 from vsg import exceptions, parser
 from vsg.token import (
     choice,
+    delimited_comment,
     direction,
     element_association,
     exponent,
@@ -667,6 +668,7 @@ def token_is_whitespace_or_comment(oToken):
         isinstance(oToken, parser.whitespace)
         or isinstance(oToken, parser.carriage_return)
         or isinstance(oToken, parser.comment)
+        or isinstance(oToken, delimited_comment.text)
         or isinstance(oToken, parser.blank_line)
         or isinstance(oToken, parser.preprocessor)
     ):
